@@ -269,7 +269,7 @@ Qed.
 Lemma new_reader_ok data sched eofd : inv (new_reader data sched eofd) /\ content (new_reader data sched eofd) = data.
 Proof. unfold inv, new_reader, content, bufsize. cbn. split; [split; [discriminate|lia]|reflexivity]. Qed.
 
-(* ---- the defect repaired by fix e4e565a: ONE Read per field.  Three octets behind a reader that hands out one
+(* ---- the defect repaired by fix 0373e10: ONE Read per field.  Three octets behind a reader that hands out one
    octet per call: the field reads 01 00 00 and leaves 02 03 for the next field; through the list (= bytes.Reader,
    whose first Read fills the buffer with everything) it reads 01 02 03. *)
 Lemma read_once_refuted :
